@@ -297,9 +297,25 @@ class CoherenceMon(Monitor):
 
     def readable(self, inc, s, where):
         t = inc.world.target
-        r = s.results()
-        for k in range(len(r["beta"])):
-            pass
+        sizes = {len(b) for b in s.state._history["logl"]}
+        r = None
+        try:
+            r = s.results()
+        except ValueError as e:
+            # results() stacks the batches into one array and refuses histories whose batches differ in size (resume with another
+            # n_particles); that refusal is outside this property - note it and go on with the accessors that do return particles
+            if len(sizes) > 1:
+                inc.world.probe("results_refuses_unequal_batches")
+            else:
+                inc.world.violation(self.prop, "results.raises", f"results() raised {type(e).__name__}: {e} ({where})", **self.keys)
+            from .world import forget
+
+            forget(e)
+        if r is not None and len(sizes) == 1:
+            # what results() hands to the user are particle records as well
+            for k in range(len(r["beta"])):
+                bl = r["blobs"][k] if (t.nblobs and "blobs" in r and len(r["blobs"]) > k) else None
+                self.rows += check_records(inc.world, self.prop, f"results()[{where}]:batch{k}", t, r["u"][k], r["x"][k], r["logl"][k], bl, self.keys)
         combos = [dict(), dict(resample=True), dict(trim_importance_weights=False), dict(resample=True, trim_importance_weights=False)]
         for o in combos:
             o = dict(o, return_blobs=bool(t.nblobs))
